@@ -115,6 +115,9 @@ def r2_rewire(ctx):
                 ctx.violation("C11.R2", fi.qual, loc(fi), "inputs are the transformed parents", f"{suffix}: node wired to {vkey(ins)[:100]} instead of the transformed parents NEW_a/NEW_b")
             elif is_split and any("OLD_" in vkey(v) for v in ins.values()):
                 ctx.violation("C11.R2", fi.qual, loc(fi), "inputs are the transformed parents", f"{suffix}: node keeps an untransformed input {vkey(ins)[:100]}")
+            elif "Splicer" in suffix and isinstance(tgt, Obj) and tgt.fields.get("name") != "pre.n":
+                ctx.violation("C11.R2", fi.qual, loc(fi), "spliced node prefixed",
+                              f"{suffix}: a sub-graph node 'n' spliced into parent 'pre' is named {tgt.fields.get('name')!r}, expected 'pre.n' (un-prefixed names collide with nodes of the outer graph)")
             else:
                 ctx.ok("C11.R2", loc(fi), f"{suffix}: kept/copied node rewired to all transformed parents")
         if not kept and not any(v.func == fi.qual for v in ctx.violations):
@@ -147,6 +150,10 @@ def r3_fuse(ctx):
             atoms = {"parent_consumers": consumers, "callback_accepts": accepts}
             for p in paths:
                 called = bool([e for e in p.effects if e.kind == "call" and e.data["name"] == "self.func"] or calls)
+                if calls and not (len(calls[0]) == 4 and getattr(calls[0][0], "name", "") == P.name and calls[0][1] == "0" and getattr(calls[0][2], "name", "") == nd.name and calls[0][3] == "x"):
+                    ctx.violation("C11.R3", fi.qual, loc(fi), "fusion callback arguments",
+                                  f"{atoms}: the fusion callback is called with {vkey(calls[0])[:120]}, documented as (parent, parent output, current node, current input)", row=atoms)
+                    continue
                 rv = p.exit[1] if p.exit[0] == "return" else None
                 want_call = consumers <= 1
                 if bool([e for e in p.effects if e.kind == "call" and isinstance(e.data.get("callee"), ModelFn)]) != want_call:
@@ -191,8 +198,9 @@ def r4_split(ctx):
     PA, PB = _node("pa"), _node("pb")
     nd = _node("n", {"a": Sym("OLD_a"), "b": Sym("OLD_b")})
     SRC = _node("cutsrc")
+    cut_args = []
     ip = Interp(repo, call_models={"self.key": lambda run, a, k, n, f: "K1",
-                                   f"{G}.split.Splitter.cut_edge": lambda run, a, k, n, f: (_node("cutsink"), SRC)})
+                                   f"{G}.split.Splitter.cut_edge": lambda run, a, k, n, f: (cut_args.append(list(a)), (_node("cutsink"), SRC))[1]})
     env = {"self.cuts": [], "self.sinks": {}}
     paths = ip.explore(nfi, env=env, args={"node": nd, "inputs": {"a": ("K1", _out(PA)), "b": ("K2", _out(PB, "o2"))}})
     ctx.evals(len(paths))
@@ -207,6 +215,9 @@ def r4_split(ctx):
             cf = c.fields if c is not None else {}
             good = getattr(ins["a"], "name", "") == _out(PA).name and len(cuts) == 1 and list(sinks.keys()) == ["K2"] \
                 and (cf.get("source_key"), cf.get("source_node"), cf.get("source_output"), cf.get("dest_key"), cf.get("dest_node"), cf.get("dest_input")) == ("K2", "pb", "o2", "K1", "n", "b")
+        if good and cut_args and not (isinstance(cut_args[-1][0], Obj) and cut_args[-1][0].cls.endswith("CutEdge") and getattr(cut_args[-1][1], "name", "") == _out(PB, "o2").name):
+            ctx.violation("C11.R4", nfi.qual, loc(nfi), "cut_edge arguments", f"cut_edge is called with {vkey(cut_args[-1])[:120]}, expected (the CutEdge, the output being cut)")
+            continue
         if not good:
             ctx.violation("C11.R4", nfi.qual, loc(nfi), "every input kept or cut",
                           f"node in part K1 with input a from K1 and input b from K2 (output o2 of pb): result {vkey(rv)[:120]}, cuts {vkey(cuts)[:160]}, sinks {vkey(sinks)[:80]}; "
@@ -256,3 +267,64 @@ def r6_cmp_nodes(ctx):
 
 
 RULES = [r1_prefix_strip, r2_rewire, r3_fuse, r4_split, r6_cmp_nodes]
+
+
+def r7_expander_and_dedup(ctx):
+    """C11.R7: _Expander.node — an unexpanded node is kept and rewired, an expanded one is replaced by the splicer's result built from
+    (node name, transformed inputs, input map, node outputs, output map); _DedupTransformer.node — the first of two equal nodes is
+    remembered and returned for the second."""
+    repo = ctx.repo
+    fi = repo.func(f"{G}.expand._Expander.node")
+    ctx.analysed(fi.qual)
+    new = {"a": Sym("NEW_a")}
+    for what, ret in (("not expanded", None), ("graph", Obj(f"{G}.graph.Graph", {"sinks": []}, name="SUB")),
+                      ("graph + maps", (Obj(f"{G}.graph.Graph", {"sinks": []}, name="SUB"), {"s": "a"}, {"0": "leaf"}))):
+        nd = _node("n", {"a": Sym("OLD_a")}, ["0"])
+        sp_args = []
+
+        def splicer(run, a, k, n, f):
+            sp_args.append(list(a))
+            return Obj("splicer", {}, name="SP")
+        env = {"self.expand": ModelFn("expander", lambda run, a, k, n, f, _r=ret: _r), "self.splicer": ModelFn("splicer factory", splicer)}
+        paths = Interp(repo).explore(fi, env=env, args={"n": nd, "inputs": dict(new)})
+        ctx.evals(len(paths))
+        for p in paths:
+            rv = p.exit[1] if p.exit[0] == "return" else None
+            if ret is None:
+                good = isinstance(rv, Obj) and rv.name == nd.name and rv.fields["inputs"] == new and not sp_args
+                exp = "the node itself, rewired to the transformed inputs"
+            else:
+                g = ret if isinstance(ret, Obj) else ret[0]
+                im, om = (None, None) if isinstance(ret, Obj) else (ret[1], ret[2])
+                tr = [e for e in p.effects if e.kind == "call" and e.data.get("method") == "transform"]
+                good = len(sp_args) == 1 and sp_args[0][0] == "n" and sp_args[0][1] == new and sp_args[0][2] == im and sp_args[0][3] == ["0"] and sp_args[0][4] == om \
+                    and len(tr) == 1 and getattr(tr[0].data["args"][0], "name", "") == g.name and rv == tr[0].data["result"]
+                exp = "splicer(node name, transformed inputs, input map, node outputs, output map).transform(sub-graph)"
+            if not good:
+                ctx.violation("C11.R7", fi.qual, loc(fi), f"expansion: {what}",
+                              f"expander returns {what}: _Expander.node yields {vkey(rv)[:80]} with splicer arguments {vkey(sp_args)[:160]}; expected {exp}")
+            else:
+                ctx.ok("C11.R7", loc(fi), f"expansion ({what}): {exp}")
+            sp_args.clear()
+    dn = repo.func(f"{G}.deduplicate._DedupTransformer.node")
+    ctx.analysed(dn.qual)
+    first, second = _node("first", {"a": Sym("x")}), _node("second", {"a": Sym("x")})
+    models = {f"{G}.deduplicate._cmp_nodes": lambda *a: True}
+    env = {"self.nodes": set(), "self.pred": ModelFn("pred", lambda *a: True)}
+    ip = Interp(repo, call_models=models, inline={f"{G}.deduplicate._DedupTransformer.__find_node"})
+    p1 = ip.explore(dn, env=env, args={"node": first, "inputs": {"a": Sym("x")}})
+    if len(p1) != 1 or p1[0].exit[0] != "return":
+        ctx.undecided("C11.R7", loc(dn), "dedup node callback not deterministic on the model")
+        return
+    remembered = p1[0].heap["self.nodes"]
+    p2 = ip.explore(dn, env={"self.nodes": remembered, "self.pred": env["self.pred"]}, args={"node": second, "inputs": {"a": Sym("x")}})
+    rv = p2[0].exit[1] if len(p2) == 1 and p2[0].exit[0] == "return" else None
+    if getattr(p1[0].exit[1], "name", None) != first.name or getattr(rv, "name", None) != first.name:
+        ctx.violation("C11.R7", dn.qual, loc(dn), "duplicates merged",
+                      f"two equal nodes visited in turn: the first yields {vkey(p1[0].exit[1])[:40]}, the second {vkey(rv)[:40]} (remembered set {vkey(remembered)[:60]}); "
+                      f"the second must be replaced by the first — otherwise de-duplication leaves equal nodes behind")
+    else:
+        ctx.ok("C11.R7", loc(dn), "the first of two equal nodes is remembered and returned for the second")
+
+
+RULES.append(r7_expander_and_dedup)
